@@ -351,8 +351,12 @@ func buildEntries() []Entry {
 	tokIL := must(spnego.CreateNegTokenInit(make([]byte, 300)))
 	tokR := must(spnego.CreateNegTokenResp(spnego.AcceptIncomplete, spnego.NtlmOID, ch1))
 	tokR2 := must(spnego.CreateNegTokenResp(spnego.AcceptIncomplete, spnego.NtlmOID, ch3))
-	add("spnego.ExtractNTLMToken", nonNil(tokI, tokIL, tokR), func(in []byte) { spnego.ExtractNTLMToken(in) })
-	add("spnego.ParseNegTokenResp", nonNil(tokR, tokR2), func(in []byte) { spnego.ParseNegTokenResp(in) })
+	// the inner choice of a token on its own (a NegTokenResp not wrapped in the GSS-API header starts
+	// with its context tag 0xA1, a NegTokenInit with 0xA0), in every length form
+	bare := [][]byte{{0xA1, 0x00}, {0xA1, 0x81, 0x80}, {0xA1, 0x82, 0x01, 0x00}, {0xA1, 0x03, 0x30, 0x01, 0x00}, {0xA0, 0x00}, {0xA1, 0x07, 0x30, 0x05, 0xA0, 0x03, 0x0A, 0x01, 0x01},
+		append([]byte{0xA1, 0x82, 0x00, 0x10, 0x30, 0x0E, 0xA2, 0x0C, 0x04, 0x0A}, []byte("NTLMSSP\x00\x02\x00")...)}
+	add("spnego.ExtractNTLMToken", append(nonNil(tokI, tokIL, tokR), bare...), func(in []byte) { spnego.ExtractNTLMToken(in) })
+	add("spnego.ParseNegTokenResp", append(nonNil(tokR, tokR2), bare...), func(in []byte) { spnego.ParseNegTokenResp(in) })
 	add("spnego.ParseNegTokenResp+use", nonNil(tokR, tokR2), func(in []byte) {
 		if t, err := spnego.ParseNegTokenResp(in); err == nil && t != nil {
 			useDecoded(t)
@@ -539,7 +543,16 @@ func buildEntries() []Entry {
 
 	// ---------------- LDAP helpers
 	sid := []byte{1, 5, 0, 0, 0, 0, 0, 5, 21, 0, 0, 0, 1, 2, 3, 4, 5, 6, 7, 8, 9, 10, 11, 12, 0xF4, 1, 0, 0}
-	add("ldap.ParseSIDFromBytes", [][]byte{sid, {1, 1, 0, 0, 0, 0, 0, 5, 18, 0, 0, 0}, {1, 0, 0, 0, 0, 0, 0, 5}}, func(in []byte) { ldap.ParseSIDFromBytes(in) })
+	// SIDs whose count octet says 15, 16, 127, 128, 254 and 255 sub-authorities, with all the octets
+	// that count announces (and a few more)
+	sidSeeds := [][]byte{sid, {1, 1, 0, 0, 0, 0, 0, 5, 18, 0, 0, 0}, {1, 0, 0, 0, 0, 0, 0, 5}}
+	for _, cnt := range []int{15, 16, 127, 128, 254, 255} {
+		for _, extra := range []int{0, 4} {
+			b := append([]byte{1, byte(cnt), 0, 0, 0, 0, 0, 5}, bytes.Repeat([]byte{0x15, 0, 0, 0}, cnt)...)
+			sidSeeds = append(sidSeeds, append(b, make([]byte, extra)...))
+		}
+	}
+	add("ldap.ParseSIDFromBytes", sidSeeds, func(in []byte) { ldap.ParseSIDFromBytes(in) })
 	addText("ldap.GetDomainFromDistinguishedName", strs("CN=User,OU=x,DC=corp,DC=local", "DC=a", "CN=a\\,DC=b,DC=c", "CN=Doe\\2C John,OU=a\\+b,DC=corp\\2Cx,DC=com", "DC=x\\2C", "DC=a\\5Cb,DC=c\\", "CN=#04024869,DC=x\\C3\\A9"), func(in []byte) { ldap.GetDomainFromDistinguishedName(string(in)) })
 	addText("ldap.ConvertLDAPTimeStampToUnixTimeStamp", strs("132000000000000000", "0", "9223372036854775807", "-1"), func(in []byte) { ldap.ConvertLDAPTimeStampToUnixTimeStamp(string(in)) })
 	addText("ldap.ConvertLDAPDurationToSeconds", strs("-864000000000", "-9223372036854775808", "0"), func(in []byte) { ldap.ConvertLDAPDurationToSeconds(string(in)) })
@@ -623,6 +636,11 @@ func buildEntries() []Entry {
 	lmnt := "aad3b435b51404eeaad3b435b51404ee:8846f7eaee8fb117ad06bdd830b7586c"
 	addText("credentials.ParseLMNTHashes", strs(lmnt, ":8846f7eaee8fb117ad06bdd830b7586c", "8846f7eaee8fb117ad06bdd830b7586c", " "+lmnt+"\n"), func(in []byte) { credentials.ParseLMNTHashes(string(in)) })
 	addText("credentials.NewCredentials", strs(lmnt, ""), func(in []byte) { credentials.NewCredentials("DOM", "user", "pw", string(in)) })
+	// the identity fields are text supplied by the user as well (qualified logon names in every spelling, no domain given)
+	logons := strs("alice", "CORP\\alice", "CORP/alice", "alice@corp.example", "/", "\\", "@", "CORP\\", "\\alice", "a/b\\c", ".\\alice", "")
+	addText("credentials.NewCredentials(user)", logons, func(in []byte) { credentials.NewCredentials("", string(in), "pw", "") })
+	addText("credentials.NewCredentials(domain)", logons, func(in []byte) { credentials.NewCredentials(string(in), "user", "pw", "") })
+	addText("credentials.NewCredentials(password)", logons, func(in []byte) { credentials.NewCredentials("", "user", string(in), "") })
 	addText("ip.NewIPv4FromString", strs("10.0.0.1", "192.168.1.0/24", "10/8", "1.2.3.4/33"), func(in []byte) {
 		if v := ip.NewIPv4FromString(string(in)); v != nil {
 			_ = v.String()
